@@ -67,6 +67,13 @@ pub fn gen_case(slice: &str, rng: &mut Rng, thorough: bool, index: u64) -> Vec<S
         "wasm-bech-codes" => wasm::rebind_bech(wasm_gen2::gen_codes(rng, thorough)),
         "wasm-bech-mix" => {
             let mut ops = wasm::rebind_bechm(if rng.chance(1, 3) { wasm_gen2::gen_codes(rng, thorough) } else { wasm_gen::gen_wasm(rng, thorough) });
+            // probes with addresses that only the OTHER configuration (Bech32, same prefix) accepts — its Apps have seen and
+            // validated them during the warm-up run in the same thread; a Bech32m App must reject them whatever ran before
+            for u in ["u1", "u2"] {
+                let foreign = cw_multi_test::MockApiBech32::new("juno").addr_make(u);
+                ops.push(format!("q-bal {} d1", foreign));
+                ops.push(format!("sudo-mint {} 1:d1", foreign));
+            }
             ops.push("nondet".into());
             ops
         }
